@@ -58,6 +58,12 @@ def run(v, O):
     out = [('a+b base', O.eq(base(O, s), v.a * fa + v.b * fb, 1e-9)), ('a-b base', O.eq(base(O, d), v.a * fa - v.b * fb, 1e-9)),
            ('a+b carries left units', O.same(s.units(), ua0)), ('a-b carries left units', O.same(d.units(), ua0)),
            ('a+b value in left units', O.eq(s.value() * fa, v.a * fa + v.b * fb, 1e-9))]
+    # the same operands the other way round, after they were used once: the sum now carries b's units
+    ub0 = Quantity(v.b, v.ub).units()
+    s2 = B + A
+    d2 = B - A
+    out += [('b+a (after a+b) carries b units', O.same(s2.units(), ub0)), ('b+a (after a+b) value in b units', O.eq(s2.value() * fb, v.a * fa + v.b * fb, 1e-9)),
+            ('b-a (after a-b) carries b units', O.same(d2.units(), ub0)), ('b-a (after a-b) value in b units', O.eq(d2.value() * fb, v.b * fb - v.a * fa, 1e-9))]
     return out
 '''
 MULDIV_SRC = '''
